@@ -34,6 +34,9 @@ C['C13'] = ("model_checking", U + "the watermark rule on every Manifest (re)writ
 C['C11'] = ("model_checking",
  "Incremental.tla: two Manifest replicas over one tree, clock in half seconds, environment edits with explicit mtimes (older/equal/newer than the previous TIMESTAMP), modifications interleaved between the per-file steps of a running update, zone offsets -1/0/+1; TLC checks IncEqualsFull and TimestampNotLate over all interleavings (and exhibits the historical local-time defect with UtcRead=FALSE). The real CLI is driven on two copies (update --incremental vs update) for 1-3 rounds with os.utime-controlled mtimes incl. sub-second offsets, a virtual clock, a modification injected after the k-th hashed file, TZ in {UTC, east, west}; TraceIncremental.tla judges every file of every round.",
  "Spec->code replay of individual TLC behaviours is not implemented for this property (the seeded histories draw from the same action alphabet); mtime == TIMESTAMP exactly is lenient.")
+C['C05'] = ("model_checking",
+ "GpgStatus.tla: the status-line scanner of verify_file against GpgRef!AcceptSig (good, valid, validity >= marginal, no EXPKEYSIG/REVKEYSIG, exit 0), failure kinds and monotonicity in the trust level, for ALL sequences up to length 4 (quick) / 5 (thorough) over gpg's vocabulary x 3 exit codes (TLC exhibits the historical TRUST_FULL defect). The same sequences are replayed into the real SystemGPGEnvironment.verify_file and ManifestFile.load with subprocess.Popen substituted; with real gpg every key state x owner-trust level is run through IsolatedGPGEnvironment (real status output recorded and judged, environment model checked as drift), a signed Manifest is tampered character by character, and `gemato verify -K -R` is run for every combination of -s, -P, key-file content and user-keyring content with byte snapshots of the user keyring; TraceGpg.tla judges every record.",
+ "gpg 2.2.40 is the oracle for real runs; network key refresh is out of reach offline (-R always); signing-subkey-without-binding states are not generated.")
 man = {
  "version": 1,
  "setup_cmd": "cd /verif && ./tools/setup.sh",
